@@ -49,17 +49,17 @@ func (r yieldRegistry) RegisterCount(string, ...string) core.MetricSampleListene
 	return yieldSampleListener{r.sc}
 }
 func (r yieldRegistry) RegisterGauge(string, core.MetricSupplier, ...string) {}
-func (r yieldRegistry) Start()                                              {}
-func (r yieldRegistry) Stop()                                               {}
+func (r yieldRegistry) Start()                                               {}
+func (r yieldRegistry) Stop()                                                {}
 
 type c01Case struct {
 	Registry bool      `json:"registry,omitempty"` // strategies (and the limiter) are built over a metric registry whose listeners are schedule points
-	Subject  string    `json:"subject"` // limiter-simple | limiter-precise | precise-direct
-	Limit   int       `json:"limit"`
-	Traj    []int     `json:"traj,omitempty"` // scripted estimates after the 1st, 2nd ... window (limiter subjects)
-	Workers [][]c01Op `json:"workers"`
-	Order   []int     `json:"order"`
-	Yields  yieldList `json:"yields"`
+	Subject  string    `json:"subject"`            // limiter-simple | limiter-precise | precise-direct
+	Limit    int       `json:"limit"`
+	Traj     []int     `json:"traj,omitempty"` // scripted estimates after the 1st, 2nd ... window (limiter subjects)
+	Workers  [][]c01Op `json:"workers"`
+	Order    []int     `json:"order"`
+	Yields   yieldList `json:"yields"`
 }
 
 func genC01C(par bool) func(t *rapid.T) c01Case {
